@@ -327,6 +327,16 @@ func (rw blockReaderWriter) claimAffineBlock(ctx context.Context, aff *model.KVP
 				// process on this host claimed it. Confirm the affinity
 				// and return the existing block.
 				logCtx.Info("Block is already claimed by this host, confirm the affinity")
+
+				// CAS the block to get a new revision before confirming.  Another host may be part way
+				// through reclaiming this (empty) block: it has read the block and is about to delete it.
+				// Rewriting the block makes that delete fail; if the block is already gone, this write
+				// fails and we must not confirm an affinity to a block that no longer exists.
+				obj, err = rw.updateBlock(ctx, obj)
+				if err != nil {
+					logCtx.WithError(err).Debug("Error writing block")
+					return nil, err
+				}
 				if _, err := rw.confirmAffinity(ctx, aff); err != nil {
 					return nil, err
 				}
